@@ -2,6 +2,7 @@ package props
 
 import (
 	"fmt"
+	"github.com/aml-org/amf-custom-validator/pkg/config"
 	"sort"
 	"strings"
 
@@ -57,7 +58,7 @@ func getObs(obs map[string]*c02obs, k string) *c02obs {
 func C02(e *core.Env) {
 	res := e.Res
 	res.Rule = "cases = (path, graph, focus node); paths: every path with <= 2 leaves over ex.a ex.b ex.c forward/inverse and @type plus a seeded sample with 3-4 (quick) / all with 3 and a sample with 4-5 (thorough), plus every 3-part (and a sample of 4-part) sequence whose parts are a predicate, a parenthesised sequence or a parenthesised alternative; for every third path and all of the latter the three observing constraints are ALSO written under one path key and must see the same values; " +
-		"graphs: hand-made (cycle, diamond, self loop, literal and dangling link mid-path) + seeded random; observables: strings of reached values, number of distinct values, nodes reached for nested; " +
+		"a history (paths over the built-in prefix core. before / after a profile that rebinds core was compiled); graphs: hand-made (cycle, diamond, self loop, literal and dangling link mid-path) + seeded random; observables: strings of reached values, number of distinct values, nodes reached for nested; " +
 		"non-trivial = the path reaches at least one value from that node; distinct by (path, graph, node)"
 	leaves := []PExp{Pr("ex.a", false), Pr("ex.b", false), Pr("ex.c", false), Pr("ex.a", true), Pr("ex.b", true), Pr("ex.c", true), Pr("@type", false)}
 	paths := []PExp{}
@@ -287,6 +288,62 @@ func C02(e *core.Env) {
 		if gi == 0 {
 			res.Sample(map[string]any{"graph": data, "paths": []string{paths[0].Canon(), paths[20].Canon(), paths[len(paths)-1].Canon()}})
 		}
+	}
+	// history: paths over a BUILT-IN prefix (core.) reach the same values before and after another profile that binds that
+	// prefix name to another namespace was compiled in the process
+	{
+		const coreNS = "http://a.ml/vocabularies/core#"
+		hp := []PExp{paths[0], paths[7], paths[30], paths[60], paths[len(paths)-1], paths[len(paths)-5], paths[len(paths)-9]}
+		mk := func(prefix string, declare bool) string {
+			var b strings.Builder
+			b.WriteString("#%Validation Profile 1.0\nprofile: gen\n")
+			if declare {
+				b.WriteString("prefixes:\n  ex: http://example.org/ns#\n")
+			}
+			b.WriteString("violation:\n")
+			for i := range hp {
+				fmt.Fprintf(&b, "  - h%d-in\n  - h%d-cnt\n", i, i)
+			}
+			b.WriteString("validations:\n")
+			for i, p := range hp {
+				ps := yamlQuote(strings.ReplaceAll(p.Canon(), "ex.", prefix+"."))
+				fmt.Fprintf(&b, "  h%d-in:\n    targetClass: %s.T\n    propertyConstraints:\n      %s:\n        in: [ __no_such_value__ ]\n", i, prefix, ps)
+				fmt.Fprintf(&b, "  h%d-cnt:\n    targetClass: %s.T\n    propertyConstraints:\n      %s:\n        maxCount: 0\n", i, prefix, ps)
+			}
+			return b.String()
+		}
+		rc := config.DefaultReportConfiguration()
+		dataEx := hand.JSONLD()
+		dataCore := strings.ReplaceAll(dataEx, ExNS, coreNS)
+		other := "#%Validation Profile 1.0\nprofile: Other\nprefixes:\n  core: http://elsewhere.example/core#\n  ex: http://elsewhere.example/ex#\nviolation:\n  - o\nvalidations:\n  o:\n    targetClass: core.T\n    message: other\n    propertyConstraints:\n      core.a / ex.b:\n        minCount: 1\n"
+		run := func(p, d string) string {
+			o, err := pkg.ValidateWithConfiguration(p, d, false, nil, clockA, rc)
+			if err != nil {
+				return "error: " + err.Error()
+			}
+			return o
+		}
+		refEx := strings.ReplaceAll(run(mk("ex", true), dataEx), ExNS, coreNS)
+		before := run(mk("core", false), dataCore)
+		pkg.CompileProfile(other, false, nil)
+		run(other, dataCore)
+		after := run(mk("core", false), dataCore)
+		afterEx := strings.ReplaceAll(run(mk("ex", true), dataEx), ExNS, coreNS)
+		replay := map[string]any{"history": []string{"Validate(paths over the built-in prefix core., data)", "CompileProfile(other: rebinds core and ex)", "Validate(other, data)", "Validate(paths over core., data) again"},
+			"profile_core": mk("core", false), "other_profile": other, "data": dataCore}
+		switch {
+		case before != refEx:
+			replay["first_diff_line"] = firstDiff(refEx, before)
+			res.Violate("impl-violates-property", "the same paths written over the built-in prefix core. (same graph, namespace renamed) reach other values than over a declared prefix", replay)
+		case after != before:
+			replay["first_diff_line"] = firstDiff(before, after)
+			res.Violate("impl-violates-property", "paths over a built-in prefix reach other values after another profile that rebinds that prefix was compiled", replay)
+		case afterEx != refEx:
+			replay["first_diff_line"] = firstDiff(refEx, afterEx)
+			res.Violate("impl-violates-property", "paths over a declared prefix reach other values after another profile that binds the same prefix name elsewhere was compiled", replay)
+		}
+		res.Case("history|builtin-prefix-paths", strings.Contains(before, "\"result\""))
+		res.Count("stream=history")
 	}
 	kinds := []string{}
 	for k := range res.Distribution {
